@@ -673,12 +673,27 @@ func (b Builder) BinOp(op token.Token, x, y Expr) Expr {
 		case vkArray:
 			typ := x.raw.Type.Underlying().(*types.Array)
 			elem := b.Prog.Elem(x.Type)
-			ret := prog.BoolVal(true)
-			for i, n := 0, int(typ.Len()); i < n; i++ {
-				fx := b.impl.CreateExtractValue(x.impl, i, "")
-				fy := b.impl.CreateExtractValue(y.impl, i, "")
-				r := b.BinOp(token.EQL, Expr{fx, elem}, Expr{fy, elem})
-				ret = Expr{b.impl.CreateAnd(ret.impl, r.impl, ""), tret}
+			n := int(typ.Len())
+			var ret Expr
+			if cmpMayPanic(typ.Elem()) {
+				// comparing interface values can panic: stop at the first differing element, as the spec demands
+				idx := make([]int, n)
+				for i := range idx {
+					idx[i] = i
+				}
+				ret = b.shortCircuitEqual(idx, func(i int) Expr {
+					fx := b.impl.CreateExtractValue(x.impl, i, "")
+					fy := b.impl.CreateExtractValue(y.impl, i, "")
+					return b.BinOp(token.EQL, Expr{fx, elem}, Expr{fy, elem})
+				})
+			} else {
+				ret = prog.BoolVal(true)
+				for i := 0; i < n; i++ {
+					fx := b.impl.CreateExtractValue(x.impl, i, "")
+					fy := b.impl.CreateExtractValue(y.impl, i, "")
+					r := b.BinOp(token.EQL, Expr{fx, elem}, Expr{fy, elem})
+					ret = Expr{b.impl.CreateAnd(ret.impl, r.impl, ""), tret}
+				}
 			}
 			switch op {
 			case token.EQL:
@@ -688,16 +703,27 @@ func (b Builder) BinOp(op token.Token, x, y Expr) Expr {
 			}
 		case vkStruct:
 			typ := x.raw.Type.Underlying().(*types.Struct)
-			ret := prog.BoolVal(true)
-			for i, n := 0, typ.NumFields(); i < n; i++ {
-				if typ.Field(i).Name() == "_" {
-					continue
-				}
+			cmpField := func(i int) Expr {
 				ft := prog.Type(typ.Field(i).Type(), InGo)
 				fx := b.impl.CreateExtractValue(x.impl, i, "")
 				fy := b.impl.CreateExtractValue(y.impl, i, "")
-				r := b.BinOp(token.EQL, Expr{fx, ft}, Expr{fy, ft})
-				ret = Expr{b.impl.CreateAnd(ret.impl, r.impl, ""), tret}
+				return b.BinOp(token.EQL, Expr{fx, ft}, Expr{fy, ft})
+			}
+			var idx []int
+			for i, n := 0, typ.NumFields(); i < n; i++ {
+				if typ.Field(i).Name() != "_" {
+					idx = append(idx, i)
+				}
+			}
+			var ret Expr
+			if cmpMayPanic(typ) {
+				// comparing interface values can panic: stop at the first differing field, as the spec demands
+				ret = b.shortCircuitEqual(idx, cmpField)
+			} else {
+				ret = prog.BoolVal(true)
+				for _, i := range idx {
+					ret = Expr{b.impl.CreateAnd(ret.impl, cmpField(i).impl, ""), tret}
+				}
 			}
 			switch op {
 			case token.EQL:
@@ -732,6 +758,57 @@ func (b Builder) BinOp(op token.Token, x, y Expr) Expr {
 		}
 	}
 	panic("todo")
+}
+
+// cmpMayPanic reports whether comparing two values of type t with == can panic at
+// run time, i.e. whether t contains an interface type (below arrays and structs).
+func cmpMayPanic(t types.Type) bool {
+	switch t := t.Underlying().(type) {
+	case *types.Interface:
+		return true
+	case *types.Array:
+		return cmpMayPanic(t.Elem())
+	case *types.Struct:
+		for i, n := 0, t.NumFields(); i < n; i++ {
+			if t.Field(i).Name() != "_" && cmpMayPanic(t.Field(i).Type()) {
+				return true
+			}
+		}
+	}
+	return false
+}
+
+// shortCircuitEqual compares the parts idx[0], idx[1], ... in order and stops at the
+// first pair that differs ("the fields are compared in source order, and comparison
+// stops as soon as two field values differ"): a later part whose comparison would
+// panic is then not evaluated.
+func (b Builder) shortCircuitEqual(idx []int, cmp func(i int) Expr) Expr {
+	prog := b.Prog
+	if len(idx) == 0 {
+		return prog.BoolVal(true)
+	}
+	done := b.Func.MakeBlocks(1)[0]
+	vals := make([]llvm.Value, 0, len(idx))
+	preds := make([]llvm.BasicBlock, 0, len(idx))
+	for k, i := range idx {
+		r := cmp(i)
+		if k == len(idx)-1 {
+			vals = append(vals, r.impl)
+			preds = append(preds, b.impl.GetInsertBlock())
+			b.Jump(done)
+			break
+		}
+		next := b.Func.MakeBlocks(1)[0]
+		vals = append(vals, prog.BoolVal(false).impl)
+		preds = append(preds, b.impl.GetInsertBlock())
+		b.If(r, next, done)
+		b.SetBlockEx(next, AtEnd, false)
+	}
+	b.SetBlockEx(done, AtEnd, false)
+	phi := b.Phi(prog.Bool())
+	phi.impl.AddIncoming(vals, preds)
+	b.blk.last = done.last
+	return phi.Expr
 }
 
 // The UnOp instruction yields the result of (op x).
